@@ -98,7 +98,9 @@ impl<'a, T: IteTable<BddPtr<'a>>> BddBuilder<'a> for RobddBuilder<'a, T> {
 
 //%% extract src/builder/bdd/robdd.rs :: impl<'a, T: IteTable<'a, BddPtr<'a>> + Default> BddBuilder<'a> for RobddBuilder<'a, T> :: fn get_or_insert
 //%% @rewrite 1 /unsafe \{\n            \/\/ TODO: Make this safe if possible\n            let tbl = &mut \*self\.compute_table\.as_ptr\(\);\n/ => {\n
-//%% @rewrite 2 /tbl\.get_or_insert\(/ => self.table_get_or_insert(
+//%% @rewrite ?2 /tbl\.get_or_insert\(/ => self.table_get_or_insert(
+//%% @rewrite ?2 /tbl\.get_or_insert_by_hash\(/ => self.table_get_or_insert_by_hash(
+//%% @rewrite ?2 /self\.order\.borrow\(\)/ => self.order_ref()
 //%% @entry
         proof { axiom_bddptr_eq_equiv(); lemma_neg_shape(self.order_view()); lemma_smooth_neg(self.order_view()); }
 //%% end
